@@ -44,6 +44,9 @@ fn exclusions_on() -> bool {
 /// (a) C17-a: no module WITHOUT top-level await whose body throws while its execution was
 /// deferred behind an asynchronous dependency that fulfils.
 const EXCL_DEFERRED_SYNC_THROWER: &str = "excluded-deferred-sync-thrower";
+/// Switch of exclusion (a) and of its structural backstop (a'). C17-a is repaired in /repo
+/// (known.d: status fixed), so both are off and these shapes are generated and checked again.
+const EXCLUDE_DEFERRED_SYNC_THROWER: bool = false;
 /// (b) C17-b: no cycle whose non-root asynchronous member waits for a different number of
 /// asynchronous dependencies than the cycle root.
 const EXCL_CYCLE_PENDING_MISMATCH: &str = "excluded-cycle-pending-mismatch";
@@ -1142,6 +1145,7 @@ fn apply_exclusions(case: &mut Case, labels: &mut Vec<&'static str>) {
     for _ in 0..4 * modgraph::MAXN {
         let pc = parse_case(&RCase::from_case(case));
         let (risky, a2, b2) = pc.import_walk_shapes();
+        let a2 = a2 && EXCLUDE_DEFERRED_SYNC_THROWER;
         if a2 || b2 {
             for i in risky {
                 case.mods[i].dynimp = None;
@@ -1154,7 +1158,7 @@ fn apply_exclusions(case: &mut Case, labels: &mut Vec<&'static str>) {
             continue;
         }
         let mo = model(&pc);
-        if let Some(m) = mo.deferred_sync_thrower {
+        if let Some(m) = mo.deferred_sync_thrower.filter(|_| EXCLUDE_DEFERRED_SYNC_THROWER) {
             // (a) drop the throw of exactly that module
             case.mods[m].throw = Throw::Never;
             if !labels.contains(&EXCL_DEFERRED_SYNC_THROWER) {
@@ -1227,7 +1231,7 @@ impl Prop for C17 {
             "V8 (node 20 vm.SourceTextModule, all modules linked up front, shared microtask queue drained by a macrotask between entry evaluations) implements the specification's module evaluation order for graphs with top-level await; graphs without asynchronous evaluation are decided by the reference model as well".into(),
             "the completion time of dynamic import() is host-defined, and so is which modules a later walk still finds unevaluated: cases with import() are decided by the invariants, the entry settlements and the fulfilled/rejected outcome of every import(); the per-module print sequences are compared too and a difference is only labelled (dyn-timing-differs-from-v8)".into(),
             "V8 rejects Evaluate() of an already errored module with that module's own error, the specification with the outcome recorded for its cycle root; when the two differ (members of one cycle failed asynchronously with different errors) the specification decides (label v8-own-error-vs-cycle-root-error)".into(),
-            "generator exclusions for the open findings C17-a..d (labels excluded-*): synchronous throwers deferred behind an asynchronous dependency; cycles whose non-root asynchronous member waits for another number of dependencies than the root; import() of a module that is evaluating asynchronously under somebody else's capability; and, because walks started by import() are not modelled, import() of a module above top-level await in a case that has a synchronous thrower or a cycle above top-level await".into(),
+            "generator exclusions for the open findings C17-b..d (labels excluded-*; the exclusion of C17-a, synchronous throwers deferred behind an asynchronous dependency, is switched off since the defect is repaired): cycles whose non-root asynchronous member waits for another number of dependencies than the root; import() of a module that is evaluating asynchronously under somebody else's capability; and, because walks started by import() are not modelled, import() of a module above top-level await in a case that has a cycle above top-level await".into(),
         ]
     }
     fn run_case(&self, _env: &mut Env, stream: &str, index: u64, tape: &[u8]) -> CaseOut {
